@@ -226,8 +226,9 @@ Definition new_arena (m init : Z) (nid : nat) : option (arena * nat) :=
   if init >? 0 then match grow a1 init (S nid) with Some (a2, _, n2) => Some (a2, n2) | None => None end
   else Some (a1, S nid).
 
-(* copy constructor: for (i = 0; i < buffersSize_; ++i) memcpy(new buffer, otherBuffers[i]) -- the loop bound is the
-   table CAPACITY; entries at or beyond buffersPos_ were never written *)
+(* copy constructor: newBuffers = new T*[buffersSize_]; for (i = 0; i < buffersPos_; ++i) memcpy(new buffer, otherBuffers[i]).
+   Only the entries of the buffers in use are read and written; the rest of the new table stays uninitialised.
+   (Before the fix commit the loop ran to buffersSize_ and read never-written entries.) *)
 Fixpoint copy_entries (l : list (option buf)) (nid : nat) : option (list (option buf)) :=
   match l with
   | [] => Some []
@@ -238,12 +239,13 @@ Fixpoint copy_entries (l : list (option buf)) (nid : nat) : option (list (option
                     end
   end.
 Definition copy_ctor (o : arena) (nid : nat) : option (arena * nat) :=
-  match copy_entries (a_tbl o) nid with
-  | Some t => Some (Arena (a_lg o) (a_bsz o) (a_mask o) (a_pos o) (a_cap o) t (a_bpos o) 0, (nid + length (a_tbl o))%nat)
+  if a_bpos o >? a_tsz o then None else                                 (* would index past the table *)
+  let used := Z.to_nat (a_bpos o) in
+  match copy_entries (firstn used (a_tbl o)) nid with
+  | Some t => Some (Arena (a_lg o) (a_bsz o) (a_mask o) (a_pos o) (a_cap o) (t ++ repeat None (length (a_tbl o) - used)) (a_bpos o) 0,
+                    (nid + used)%nat)
   | None => None
   end.
-(* the finding's domain: the copy constructor reads table entries that were never initialised *)
-Definition copy_reads_uninit (o : arena) : bool := a_bpos o <? a_tsz o.
 
 Definition zero_arena : arena := Arena 0 0 0 0 0 [] 0 0.
 (* destructor: frees buffers [0, buffersPos_) -- returns their ids *)
